@@ -218,3 +218,28 @@ Theorem C01_fuse : forall i lo hi A B par par1 par2,
   refines [For i lo hi A par1; For i lo hi B par2] [For i lo hi (A ++ B) par].
 Proof. exact FissionFuse.rule_fuse. Qed.
 Print Assumptions C01_fuse.
+
+(** Alpha_Rename of a duplicated loop: giving the copy a fresh iteration Sym (not mentioned, not bound in the
+    body) preserves it *)
+Theorem C01_rename_iter : forall i i2 lo hi body par,
+  forallb (Subst.okbind (ShiftLoop.okbR i i2)) body = true -> forallb (Subst.nm_s i (ShiftLoop.hidR i2)) body = true ->
+  refines [For i lo hi body par] [For i2 lo hi (PartialEval.pe_ss i (Var i2) body) par].
+Proof. exact ShiftLoop.rule_rename_iter. Qed.
+Print Assumptions C01_rename_iter.
+
+(** cut_loop as the implementation performs it: the second loop is a renamed copy *)
+Theorem C01_cut_loop_fresh : forall i i2 lo mid hi body par,
+  env_only lo = true -> env_only mid = true -> env_only hi = true ->
+  forallb (Subst.okbind (ShiftLoop.okbR i i2)) body = true -> forallb (Subst.nm_s i (ShiftLoop.hidR i2)) body = true ->
+  forall st st' l m h,
+    eval st lo = Ok (VInt l) -> eval st mid = Ok (VInt m) -> eval st hi = Ok (VInt h) -> l <= m <= h ->
+    exec_list [For i lo hi body par] st = Ok st' ->
+    exec_list [For i lo mid body par; For i2 mid hi (PartialEval.pe_ss i (Var i2) body) par] st = Ok st'.
+Proof.
+  intros i i2 lo mid hi body par Hlo Hmid Hhi Hok Hnm st st' l m h El Em Eh Hle H.
+  pose proof (rule_cut_loop i lo mid hi body par par par Hlo Hmid Hhi st st' l m h El Em Eh Hle H) as H1.
+  exact (refines_app [For i lo mid body par] [For i mid hi body par]
+           [For i2 mid hi (PartialEval.pe_ss i (Var i2) body) par] []
+           (ShiftLoop.rule_rename_iter i i2 mid hi body par Hok Hnm) st st' H1).
+Qed.
+Print Assumptions C01_cut_loop_fresh.
